@@ -217,13 +217,14 @@ def check_assumptions(text):
     return bad
 
 
-def gate_no_axioms(prop=None):
+def gate_no_axioms(prop=None, gen_dir=None):
     """no Axiom/Admitted/... in the library, the specs and the proof files of `prop`
-    (all proof directories when prop is None)"""
-    pat = re.compile(r"\b(Admitted|admit|Axiom|Axioms|Parameter|Parameters|Conjecture|Conjectures|Hypothesis|Hypotheses|Variable|Variables|Context|give_up|Abort)\b|Admit Obligations|Unset Guard|Unset Positivity|Unset Universe|bypass_check|type-in-type|impredicative-set")
+    (all proof directories when prop is None), nor in the generated model under gen_dir"""
+    pat = re.compile(r"\b(Admitted|admit|Axiom|Axioms|Parameter|Parameters|Conjecture|Conjectures|Hypothesis|Hypotheses|Variable|Variables|Context|give_up|Abort|Primitive)\b|Admit Obligations|Declare Module|Unset Guard|Unset Positivity|Unset Universe|bypass_check|type-in-type|impredicative-set|native_compute")
     bad = []
     files = glob.glob(os.path.join(VERIF, "coq", "lib", "*.v")) + glob.glob(os.path.join(VERIF, "coq", "spec", "*.v"))
     files += glob.glob(os.path.join(VERIF, "coq", "proofs", prop or "*", "*.v"))
+    if gen_dir: files += glob.glob(os.path.join(gen_dir, "*.v"))
     for f in files:
         insec = 0
         # blank out comments (also multi-line, non-nested is enough here) but keep line numbers
